@@ -59,6 +59,9 @@ type Gen struct {
 	maxNodes int
 	quantAsm bool
 	inQuant  int
+	curRound int
+	maxRound int
+	shareCache map[string]string
 	specMode int
 	nonBlockingUnit bool // the unit's contract says nonblocking: calls to possibly blocking callees are obligations
 	imm      *State
@@ -98,6 +101,9 @@ type namedTerm struct {
 type asmRec struct {
 	seq  int
 	text string
+	// round: 0 for an assumption of the program or contract; k >= 1 for a ground instance of a quantified
+	// hypothesis made in instantiation round k (early proof stages use only the first round's instances)
+	round int
 }
 
 func (g *Gen) addAsm(text string) {
@@ -106,7 +112,7 @@ func (g *Gen) addAsm(text string) {
 	if g.asmSeqOverride > 0 {
 		sq = g.asmSeqOverride
 	}
-	g.asms = append(g.asms, asmRec{sq, text})
+	g.asms = append(g.asms, asmRec{sq, text, g.curRound})
 }
 
 // axiom: valid in every state, usable by every obligation
@@ -121,7 +127,7 @@ func (g *Gen) addAxiom(text string) {
 		return
 	}
 	g.axiomSeen[text] = true
-	g.asms = append(g.asms, asmRec{0, text})
+	g.asms = append(g.asms, asmRec{0, text, g.curRound})
 }
 
 func (g *Gen) beginGoal() string {
@@ -204,7 +210,12 @@ func (g *Gen) instantiate(rounds int) int {
 		g.privAsms = map[string][]asmRec{}
 	}
 	type cand struct{ term, origin string }
+	defer func() { g.curRound = 0 }()
 	for r := 0; r < rounds; r++ {
+		g.curRound = r + 1
+		if g.curRound > g.maxRound {
+			g.maxRound = g.curRound
+		}
 		added := 0
 		hyps := g.qhyps
 		logSnap := append([]readRec{}, g.readLog...)
@@ -334,7 +345,7 @@ func (g *Gen) instantiate(rounds int) int {
 						g.assume(qh.guard, t)
 					} else {
 						for _, c := range splitAnd(t) {
-							g.privAsms[tup.origin] = append(g.privAsms[tup.origin], asmRec{qh.seq, sImp(qh.guard, c)})
+							g.privAsms[tup.origin] = append(g.privAsms[tup.origin], asmRec{qh.seq, sImp(qh.guard, c), g.curRound})
 						}
 					}
 					added++
@@ -412,6 +423,30 @@ func (g *Gen) define(prefix string, s Sort, term string) string {
 	n := g.nm(prefix)
 	g.decls = append(g.decls, fmt.Sprintf("(define-fun %s () %s %s)", n, s, term))
 	return n
+}
+
+// shared: a long ground scalar term gets a name of its own (once per distinct text), so that the many places
+// a specification repeats it - inlined spec functions, instances of quantified hypotheses - share it.
+func (g *Gen) shared(v *SVal) *SVal {
+	if v == nil || g.inQuant > 0 || len(v.Sub) > 0 || len(v.Term) < 60 || len(g.qbuilding) > 0 {
+		return v
+	}
+	switch v.K {
+	case KBool, KInt, KPtr, KMap, KChan, KString:
+	default:
+		return v
+	}
+	if g.shareCache == nil {
+		g.shareCache = map[string]string{}
+	}
+	n, ok := g.shareCache[v.Term]
+	if !ok {
+		n = g.define("sh", g.W.scalarSort(v.T), v.Term)
+		g.shareCache[v.Term] = n
+	}
+	c := *v
+	c.Term = n
+	return &c
 }
 
 func (g *Gen) assume(reach, fact string) {
